@@ -43,3 +43,11 @@ reg('C09', 'fault_enumeration',
     'terminating event must be end-of-iteration or MciIpmDataError. Files are sized so that prefixes and record ends fall on '
     'and around block boundaries. Held on the executions produced.',
     'Trusts vmon/ref/blocking.py; for IPM files the expected dicts are the real decoder output on the complete records.')
+
+reg('C11', 'exploration',
+    'runtime monitor: every finalisation history (close / with-exit, nested real with-blocks) played on real writers; file snapshots after each finalisation compared, then read back',
+    'All finalisation histories of length 1..4 (quick) / 1..6 (thorough) over {close(), context-manager exit} x {VbsWriter, '
+    'IpmWriter} x {VBS, 1014} x {BytesIO, real file} x 7 record sets are enumerated. The file after the whole history must '
+    'equal the file after the first finalisation and read back, by the real and by the reference reader, as the records '
+    'written. Exhaustive up to the history bound; held on the executions produced.',
+    'Trusts vmon/ref/blocking.py. Whether a repeated finalisation is ignored or refused is not judged; only the file is.')
